@@ -8,7 +8,7 @@
 From Coq Require Import String Ascii.
 From Coq Require Import List ZArith Bool.
 From Verif Require Import C07.Model C07.Spec C07.Proofs C07.SessionProofs C07.Findings C07.Consumer.
-From Verif Require Import C07.Held C07.HeldProofs.
+From Verif Require Import C07.Held C07.HeldProofs C07.Format C07.FormatProofs.
 Import ListNotations.
 Open Scope Z_scope.
 
@@ -726,3 +726,56 @@ Example C07_held_example :
     = PModResp [(n_content_type, v2); (kA, v2)] [120] 200 /\
   no_body_bound [(kA, v1); (kB, v2)] = true /\ no_body_bound [(n_content_type, v1)] = false.
 Proof. vm_compute. repeat split; reflexivity. Qed.
+
+(* ------------------------------------------------------------------ the bytes of a header dump *)
+
+(* "The encoding carries exactly the headers", byte by byte and for EVERY header
+   map (no side condition): the dump is the concatenation of
+   name ':' value '\n'  over the entries ("\n" alone for the empty map), so it
+   has exactly that many bytes and the text of every entry stands in it
+   verbatim - whatever the bytes mean to a formatter ('%'), to the dump (':' in
+   a value) or to nobody (tab, UTF-8 sequences).  Which maps can be READ BACK
+   from it is C07_encoding's side condition (a newline in a value, a ':' or
+   newline in a name are not representable). *)
+Theorem C07_dump_bytes_exact : forall h,
+  dump h = dump_lines h /\
+  (h <> [] -> length (dump h) = total_len h) /\
+  (forall kv, In kv h -> exists pre post, dump h = pre ++ (fst kv ++ 58 :: snd kv ++ [10]) ++ post).
+Proof.
+  intro h. split; [apply dump_is_lines|]. split; [apply dump_length|].
+  exact (dump_contains_line h).
+Qed.
+Print Assumptions C07_dump_bytes_exact.
+
+(* variant (seed C07-10): the header text handed to the formatter as its
+   FORMAT.  On every header map without a '%' the variant IS the code (why
+   pools of names / values without '%' cannot see it) ... *)
+Theorem C07_dump_format_variant_same_without_percent : forall h,
+  percent_freeb h = true -> dump_v DumpAsFormat h = dump_v DumpOperands h.
+Proof. intros h H. apply dump_v_same. apply percent_freeb_spec. exact H. Qed.
+Print Assumptions C07_dump_format_variant_same_without_percent.
+
+(* ... and it violates the third conjunct of C07_encoding on a well-formed map:
+   x-ratio: 100%  is not read back (the '%' swallows the line terminator),
+   neither are  loc: /a%2Fb  and  p: 5%%  *)
+Theorem C07_dump_format_variant_refuted :
+  ~ (forall h, hdrs_wf h -> parse_dump (dump_v DumpAsFormat h) = h).
+Proof.
+  intro H. destruct dump_v_refuted as [W [_ [N _]]]. exact (N (H _ W)).
+Qed.
+Print Assumptions C07_dump_format_variant_refuted.
+
+Example C07_dump_format_example :
+  hdrs_wf w_ratio /\ hdrs_wf w_url /\
+  percent_freeb w_ratio = false /\ percent_freeb [(kA, v1); (kB, [58; 9; 195; 169])] = true /\
+  parse_dump (dump w_ratio) = w_ratio /\ parse_dump (dump w_url) = w_url /\
+  (* x-ratio:100%!\n(MISSING) *)
+  dump_v DumpAsFormat w_ratio
+    = [120; 45; 114; 97; 116; 105; 111; 58; 49; 48; 48; 37; 33; 10; 40; 77; 73; 83; 83; 73; 78; 71; 41] /\
+  (* loc:/a%!F(MISSING)b  and  p:5%  *)
+  parse_dump (dump_v DumpAsFormat w_url)
+    = [([108; 111; 99], [47; 97; 37; 33; 70; 40; 77; 73; 83; 83; 73; 78; 71; 41; 98]); ([112], [53; 37])].
+Proof.
+  destruct dump_v_refuted as [W1 [_ [_ [W2 _]]]].
+  split; [exact W1|]. split; [exact W2|]. vm_compute. repeat split; reflexivity.
+Qed.
